@@ -407,9 +407,9 @@ theorem ItemsQ.cons {s s1 s' : PState} {it : TItem Gen} {new : List (TItem Gen)}
     · exact ⟨hit.1, by omega⟩
     · have := h.2 x hx'; exact ⟨by omega, this.2⟩
 
-theorem tsLoop_uid {d : List Char → Option (Bool × (Ctx → PM Gen))} (hd : UidD d e) (ctx : Ctx) :
+theorem tsLoop_uid {d : List Char → Option (Bool × (Ctx → PM Gen))} (hd : UidD d e) (rep : List Char → Bool) (ctx : Ctx) :
     ∀ (fuel : Nat) (acc : List (TItem Gen)) (s : PState) (lo : Nat), lo ≤ s.seqId →
-    MQ lo (tsLoop d ctx fuel acc e s) (fun vs s' => ∃ new, vs = acc.reverse ++ new ∧ ItemsQ s new s' ∧ s.seqId ≤ s'.seqId)
+    MQ lo (tsLoop d rep ctx fuel acc e s) (fun vs s' => ∃ new, vs = acc.reverse ++ new ∧ ItemsQ s new s' ∧ s.seqId ≤ s'.seqId)
   | 0, _, _, _, _ => trivial
   | fuel + 1, acc, s, lo, hlo => by
     rw [tsLoop]
@@ -419,7 +419,9 @@ theorem tsLoop_uid {d : List Char → Option (Bool × (Ctx → PM Gen))} (hd : U
     | none => exact MQ.pure hlo1 ⟨[], by simp, ⟨by rw [uidOkT_nil]; trivial, fun x hx => (by cases hx)⟩, hq.2⟩
     | some it =>
       dsimp only
-      refine MQ.weaken (tsLoop_uid hd ctx fuel (it :: acc) s1 lo hlo1) (Nat.le_refl _) ?_
+      split
+      · exact MQ.fail hlo1
+      refine MQ.weaken (tsLoop_uid hd rep ctx fuel (it :: acc) s1 lo hlo1) (Nat.le_refl _) ?_
       intro vs s' ⟨new, hvs, hnew, hmono⟩
       refine ⟨it :: new, by simp [hvs], ItemsQ.cons (hq.1 it rfl) hnew hmono, by have := hq.2; omega⟩
 
@@ -484,7 +486,7 @@ theorem itemP_uid (f32 : List Char → Option (List Char)) : ∀ (sp : Spec) (ct
     intro s lo hlo
     rw [itemP]
     simp only [getEnv_bind]
-    refine MQ.bind (tsLoop_uid (dispatch_uid f32 items) ctx _ [] s lo hlo) ?_
+    refine MQ.bind (tsLoop_uid (dispatch_uid f32 items) _ ctx _ [] s lo hlo) ?_
     intro vs s1 hlo1 ⟨new, hvs, hnew, _⟩
     refine MQ.pure hlo1 ?_
     rw [uidOk_ts, hvs]
